@@ -276,4 +276,76 @@ Proof.
   - apply (G (d, []) false); [exact I|intros N E; apply (NF false N E eq_refl)|constructor].
   - apply (G (d, []) false); [exact I|intros N E; apply (NF false N E eq_refl)|constructor].
 Qed.
+
+(* ---- dstage_init ---- *)
+Lemma init_sizes s : sizes_ok (d_maxBlock s) ->
+  sizes (d_maxBlock (do_init s)) (d_maxBuf (do_init s)) (linked (do_init s)) /\ d_maxBuf s <= d_maxBuf (do_init s) /\
+  d_stage (do_init s) = GetBlockHeader.
+Proof.
+  intros Hs. unfold do_init, sizes, linked.
+  assert (H64 : FD_64KB <= d_maxBlock s).
+  { unfold sizes_ok, FD_blockSize_4, FD_blockSize_5, FD_blockSize_6, FD_blockSize_7, FD_64KB in *. lia. }
+  destruct (fi_ccFlag (d_fi s) =? 0); ss;
+    destruct (fi_blockMode (d_fi s) =? FD_blockLinked) eqn:EB;
+    match goal with |- context [if ?c then _ else _] => destruct c eqn:E end; ss; rewrite ?EB;
+    try apply Z.ltb_ge in E; try apply Z.ltb_lt in E; repeat split; try lia.
+Qed.
+
+(* ---- header and skippable stages never hand over to a block stage ---- *)
+Definition nbp (s s' : dstate) (oc : outcome) : Prop :=
+  bst (d_stage s') = false /\ d_maxBuf s' = d_maxBuf s /\ match oc with Stop _ => d_stage s' <> Init | _ => True end.
+Definition nb_post (s s' : dstate) (oc : outcome) : Prop :=
+  match oc with Ret v => 0 <= v -> nbp s s' oc | _ => nbp s s' oc end.
+
+Lemma nb_decodeHeader s b src s' r :
+  decodeHeader s b src = (s', r) -> 0 <= r -> bst (d_stage s') = false /\ d_maxBuf s' = d_maxBuf s.
+Proof.
+  intros H Hr. pose proof (decodeHeader_cases _ _ _ _ _ H) as (M & _ & _ & D). split; [|exact M].
+  destruct D as [D|[D|[D|[D|D]]]]; [lia| | | |].
+  - destruct D as (_ & -> & _). reflexivity.
+  - destruct D as (_ & _ & _ & -> & _). reflexivity.
+  - destruct D as (-> & _). reflexivity.
+  - destruct D as (_ & -> & _). reflexivity.
+Qed.
+Lemma nb_sfh l : d_stage (l_s l) = StoreFrameHeader ->
+  nb_post (l_s l) (l_s (fst (do_storeFrameHeader l))) (snd (do_storeFrameHeader l)).
+Proof.
+  intros Hst. unfold do_storeFrameHeader. destruct (_ <? _).
+  - ss. unfold nb_post, nbp; ss. rewrite Hst. repeat split; auto. discriminate.
+  - match goal with |- context [decodeHeader ?s1 true ?h] => destruct (decodeHeader s1 true h) as [s' r] eqn:ED end.
+    destruct (r <? 0) eqn:ER; ss; unfold nb_post, nbp.
+    + apply Z.ltb_lt in ER. intros; lia.
+    + apply Z.ltb_ge in ER. destruct (nb_decodeHeader _ _ _ _ _ ED ER) as [N1 N2]. ss. auto.
+Qed.
+Lemma nb_gfh l : d_stage (l_s l) = GetFrameHeader ->
+  nb_post (l_s l) (l_s (fst (do_getFrameHeader l))) (snd (do_getFrameHeader l)).
+Proof.
+  intros Hst. unfold do_getFrameHeader. destruct (_ <=? _).
+  - destruct (decodeHeader (l_s l) false (l_src l)) as [s' r] eqn:ED.
+    destruct (r <? 0) eqn:ER; ss; unfold nb_post, nbp.
+    + apply Z.ltb_lt in ER. intros; lia.
+    + apply Z.ltb_ge in ER. destruct (nb_decodeHeader _ _ _ _ _ ED ER) as [N1 N2]. ss. auto.
+  - destruct (_ =? 0).
+    + ss. unfold nb_post, nbp; ss. rewrite Hst. auto.
+    + match goal with |- context [do_storeFrameHeader ?l1] => pose proof (nb_sfh l1 eq_refl) as N end.
+      ss. exact N.
+Qed.
+Lemma nb_gsfs l : d_stage (l_s l) = GetSFrameSize ->
+  nb_post (l_s l) (l_s (fst (do_getSFrameSize l))) (snd (do_getSFrameSize l)).
+Proof.
+  intros Hst. unfold do_getSFrameSize, do_storeSFrameSize, do_sframeSize.
+  brute; unfold nb_post, nbp; ss; rewrite ?Hst; repeat split; auto; discriminate.
+Qed.
+Lemma nb_ssfs l : d_stage (l_s l) = StoreSFrameSize ->
+  nb_post (l_s l) (l_s (fst (do_storeSFrameSize l))) (snd (do_storeSFrameSize l)).
+Proof.
+  intros Hst. unfold do_storeSFrameSize, do_sframeSize.
+  brute; unfold nb_post, nbp; ss; rewrite ?Hst; repeat split; auto; discriminate.
+Qed.
+Lemma nb_skip l : d_stage (l_s l) = SkipSkippable ->
+  nb_post (l_s l) (l_s (fst (do_skipSkippable l))) (snd (do_skipSkippable l)).
+Proof.
+  intros Hst. unfold do_skipSkippable.
+  brute; unfold nb_post, nbp; ss; rewrite ?Hst; repeat split; auto; discriminate.
+Qed.
 End Sess.
